@@ -163,12 +163,15 @@ func scenarioC14(c *Ctx) {
 		msg    Item // the board message the poller applies
 		model  bool // compared call by call with the small-step model
 		class  string
+		approve bool // the request is ApproveParticipation (the invitation) instead of an operation result
 	}
 	pairs := []pair{
 		// the invitation operation is answered while the poller applies a confirmation that creates nothing
-		{"result || plain-message", h[:1], h[2], false, "result || plain-message"},
+		{"result || plain-message", h[:1], h[2], false, "result || plain-message", false},
+		{"approve-participation || plain-message", h[:1], h[2], false, "result || plain-message", true},
+		{"approve-participation || operation-producing-message", append(append([]Item{}, h[:1]...), h[2], h[3]), h[1], false, "result || operation-producing-message", true},
 		// ... while the poller applies the LAST confirmation, which creates the commits operation
-		{"result || operation-producing-message", append(append([]Item{}, h[:1]...), h[2], h[3]), h[1], true, "result || operation-producing-message"},
+		{"result || operation-producing-message", append(append([]Item{}, h[:1]...), h[2], h[3]), h[1], true, "result || operation-producing-message", false},
 	}
 	if !c.Quick() {
 		// every (request kind, message kind) pair of the ceremony: the oldest pending operation is
@@ -186,7 +189,7 @@ func scenarioC14(c *Ctx) {
 			panic("no such message " + label)
 		}
 		add := func(name string, upto int, class string) {
-			pairs = append(pairs, pair{name, h[:upto], h[upto], false, class})
+			pairs = append(pairs, pair{name, h[:upto], h[upto], false, class, false})
 		}
 		add("result || commit (plain)", idx("commit", 1), "result || plain-message")
 		add("result || last commit (creates the deals operation)", idx("commit", w.N-1), "result || operation-producing-message")
@@ -227,6 +230,9 @@ func scenarioC14(c *Ctx) {
 			nb := e.buildNode(schedState{e.St, s, 1}, e.Board)
 			var errA, errB error
 			fa := func() { errA = na.ProcessOperation(mkRes()) }
+			if p.approve {
+				fa = func() { errA = na.ApproveParticipation(&dto.OperationIdDTO{OperationID: o.ID}) }
+			}
 			fb := func() { errB = nb.ProcessMessage(p.msg.In.Msg) }
 			if os.Getenv("C14_DEBUG") != "" {
 				defer func() { fmt.Fprintln(os.Stderr, "schedule", schedule, "errA", errA, "errB", errB) }()
